@@ -286,3 +286,23 @@ Definition chk_version_classes (s v : Z) : bool :=
       && implb (is_mac MAead m || is_mac MSha256 m || is_mac MSha384 m) (3 <=? v)
   | None => false
   end.
+
+(* ---- beyond the property: every known id with a registered meaning, negotiable or not -----------
+   The lists the record layer, the key derivation and the version filter consult (not the
+   key-exchange lists: static (EC)DH and SRP_DSS suites are deliberately in none). *)
+Definition record_layer_lists : list string :=
+  cipher_lists ++ mac_lists ++ ["streamSuites"; "sha384PrfSuites"; "sha256PrfSuites"] ++ version_lists.
+
+Definition chk_static (s : Z) : bool :=
+  match meaning_of s, row_of s with
+  | Some m, Some r =>
+      cipher_settings_ok m r && mac_settings_ok m r
+      && ostring_eqb (r_canon_cipher r) (Some (lib_cipher_name m)) && mac_name_agrees m (r_canon_mac r)
+      && forallb (fun n => chk_list n s) record_layer_lists
+      && in_exactly_one cipher_lists s && in_exactly_one mac_lists s && in_exactly_one version_lists s
+  | None, _ => true          (* SCSVs and SSLv2 cipher kinds: not cipher suites of the registry *)
+  | _, None => false
+  end.
+
+(* known ids whose static classification deviates from their name *)
+Definition static_defects : list Z := filter (fun s => negb (chk_static s)) all_suites.
